@@ -319,7 +319,7 @@ PROPERTY = {
                 "reload_establishes: a returned reload leaves every cached interest and MAX_LEVEL recomputed for the new value whatever was cached before; after_return: in every history every emission is received by exactly the layers "
                 "the values installed by the returned reloads select (uses C07 isolation, C08 summaries and stack_hint_sound: MAX_LEVEL never hides a wanted emission); racing_old_or_new: for all 8 combinations of stale/fresh reads "
                 "(MAX_LEVEL, cached interest, filter value) the outcome is the old or the new verdict; gone_is_error. The model and the cache-free specification are compared with real reload handles over real macro callsites "
-                "(one process per history, three threads). The env-filter extended in place behind a handle (modify + add_directive): added_directive_judges_new_spans — whatever the directive list held and however often a span callsite was hit before, after the addition the callsite is enabled and every span created from it carries the added directive's matcher; stream envmodify compares the real filter (global layer / per-layer filter behind reload::Subscriber) with the model under added directives.",
+                "(one process per history, three threads). The env-filter extended in place behind a handle (modify + add_directive): added_directive_judges_new_spans — whatever the directive list held and however often a span callsite was hit before, after the addition the callsite is enabled and every span created from it carries the added directive's matcher; add_directive_keeps_inv / after_add_directive — the state the running filter has built up (matchers of live spans, levels raised on the thread) stays consistent with the extended tables, so every emission started after the change gets the specification's verdict computed from the EXTENDED tables (C11.dyn_passes_spec on the new tables and the old state); stream envmodify compares the real filter (global layer / per-layer filter behind reload::Subscriber) with the model under added directives.",
         'note': "Trusted: Lean kernel; propext/Classical.choice/Quot.sound; one reload changes one slot under its write lock and each filter callback read-locks once (the read granularity assumed by racing_old_or_new; real "
                 "preemption inside an emission is exercised only by the stress run, not enumerated); values are honest in C08's sense; None layers at layer level and `with()` chains are not in this model (and_then trees are). "
                 "Repaired on the way: F26 (and_then trees reported only the outermost subscriber's max level hint).",
@@ -328,7 +328,7 @@ PROPERTY = {
     'lean_module': 'TracingModel.Props.C12',
     'namespace': 'C12',
     'units': ['ReloadOrder', 'RegistryLocks'],
-    'required_theorems': ['C12.modify_order', 'C12.reload_establishes', 'C12.after_return', 'C12.emit_spec', 'C12.stack_hint_sound', 'C12.racing_old_or_new', 'C12.gone_is_error', 'C12.reload_racing_registration', 'C12.lock_discipline', 'C12.added_is_in_table', 'C12.added_directive_judges_new_spans'],
+    'required_theorems': ['C12.modify_order', 'C12.reload_establishes', 'C12.after_return', 'C12.emit_spec', 'C12.stack_hint_sound', 'C12.racing_old_or_new', 'C12.gone_is_error', 'C12.reload_racing_registration', 'C12.lock_discipline', 'C12.added_is_in_table', 'C12.added_directive_judges_new_spans', 'C12.add_directive_keeps_inv', 'C12.after_add_directive'],
     'streams': [_s, _em],
     'extra_bins': ['h_race'],
     'rule': 'one case = one history in a fresh process: a stack of 1-4 layers (plain / global filter / per-layer filtered) with 1-4 reloadable slots (reload::Subscriber as a global filter layer or as a per-layer filter), '
